@@ -1867,7 +1867,7 @@ def gbt_register():
     E.MODELS[CONV_CORE + ':TrialToArrayConverter.from_study_config'] = from_study_config
 
 
-def gbt_entry(single):
+def gbt_entry(single, with_count=False):
     def entry_of(sz):
         def entry(it):
             run = it.run
@@ -1895,7 +1895,14 @@ def gbt_entry(single):
             cfg = Obj('opaque:ProblemStatement', {'metric_information': mi, 'is_single_objective': single})
             cls = ModuleInfo.get(LPS).classes['InRamPolicySupporter']
             self_ = Obj(cls, {'study_config': cfg})
-            return it.invoke(E.FuncVal(cls.mod, cls.methods['GetBestTrials'], cls), [self_], {})
+            kw = {}
+            if with_count:
+                # precondition of the count-set contract: count is a non-negative int (the docstring's "top `count` trials")
+                cnt = z3.Int('count')
+                run.assume(cnt >= 0)
+                run.c11['count'] = cnt
+                kw['count'] = cnt
+            return it.invoke(E.FuncVal(cls.mod, cls.methods['GetBestTrials'], cls), [self_], kw)
         return entry
     return entry_of
 
@@ -1965,6 +1972,100 @@ def gbt_post(p):
     return obs
 
 
+def gbt_post_count(p):
+    """GetBestTrials(count=c), c >= 0 (DESIGN 5 C11, count-set contract).
+       multi-objective : the result is the first min(c, |Pareto set|) trials of the count-unset answer (so: only Pareto-optimal
+                         trials with labels, in storage order, no duplicates, and ALL of them when fewer than c exist);
+       single-objective: min(c, #trials with labels) pairwise different trials with labels, and no trial left out has a strictly
+                         better label than a reported one (top-c, ties broken arbitrarily)."""
+    pre = 'C11.GetBestTrials.count'
+    run = p.run
+    g = run.c11
+    L, T, n, d, c = g['L'], g['T'], g['n'], g['d'], g['count']
+    if p.kind == 'raise':
+        return [(pre + '.raises_only_without_objective', z3.Not(z3.Bool('has_objective_metric')))]
+    R = p.value
+    if not isinstance(R, SymList):
+        return [(pre + '.result_is_a_list', z3.BoolVal(False))]
+    nr, ra = R.n, R.arr
+    valid = lambda i: z3.Not(QE(d, lambda k: xreal.is_nan(L.at(i, k))))
+    dd = conc(d)
+    if conc(n) is not None:
+        # model query at a concrete size: everything stated over the trial list, the labels and the result only
+        N = conc(n)
+        I = [z3.IntVal(i) for i in range(N)]
+        if g['single']:
+            better = lambda j, i: xreal.gt(L.at(j, 0), L.at(i, 0))
+            nvalid = NP._count_terms([valid(i) for i in I])
+            reported = lambda k: z3.Or([z3.And(j < nr, ra[j] == T.arr[k]) for j in range(N)] + [z3.BoolVal(False)])
+            top = z3.And([z3.Implies(j < nr, z3.Or([z3.And(ra[j] == T.arr[i], valid(I[i]),
+                                                           z3.And([z3.Implies(z3.And(valid(I[k]), z3.Not(reported(k))), z3.Not(better(I[k], I[i]))) for k in range(N)] + [z3.BoolVal(True)]))
+                                                    for i in range(N)] + [z3.BoolVal(False)])) for j in range(N)] + [z3.BoolVal(True)])
+            distinct = z3.And([z3.Implies(jb < nr, ra[ja] != ra[jb]) for ja in range(N) for jb in range(ja + 1, N)] + [z3.BoolVal(True)])
+            return [(pre + '.len', nr == z3.If(c < nvalid, c, nvalid)), (pre + '.top', top), (pre + '.no_duplicates', distinct)]
+        better = lambda j, i: dom(L, j, L, i, d)
+        spec = lambda i: z3.And(valid(i), z3.Not(QE(n, lambda j: z3.And(valid(j), better(j, i)))))
+        sp = [spec(i) for i in I]
+        pos = [NP._count_terms(sp[:i]) for i in range(N)]
+        tot = NP._count_terms(sp)
+        exact = z3.And([nr == z3.If(c < tot, c, tot)] + [z3.Implies(z3.And(sp[i], pos[i] < c), ra[pos[i]] == T.arr[i]) for i in range(N)])
+        return [(pre + '.prefix_of_pareto_set', exact)]
+    fs = getattr(run, 'np_filters', [])
+    j0, jb, i0, c1 = z3.Int('j0!p'), z3.Int('jb!p'), z3.Int('i0!p'), z3.Int('c1!p')
+    in_r = z3.And(j0 >= 0, j0 < nr)
+    Lm = lambda name, f: (pre + '.' + name, f, 'lemma')
+    if g['single']:
+        sorts = getattr(run, 'np_argsorts', [])
+        if len(fs) != 1 or len(sorts) != 1:
+            raise Unsupported('GetBestTrials(count): the single-objective selection is not one mask filter followed by one argsort')
+        f1 = fs[0]
+        s1, n1 = f1['src'], f1['n']
+        _x, pp, qq, _n = sorts[0]
+        lab = lambda i: L.at(i, 0)
+        w = lambda j: s1(pp(j))
+        NP.fact(run, f1['complete_at'](i0))
+        return [
+            Lm('lemma.candidates_are_the_trials_with_labels', QA(n1, lambda k: z3.And(s1(k) >= 0, s1(k) < zi(n), valid(s1(k))))),
+            (pre + '.len', nr == z3.If(c < n1, c, n1)),
+            (pre + '.reported_has_labels', z3.Implies(in_r, z3.And(pp(j0) >= 0, pp(j0) < n1, w(j0) >= 0, w(j0) < zi(n), ra[j0] == T.arr[w(j0)], valid(w(j0))))),
+            (pre + '.no_duplicates', z3.Implies(z3.And(j0 >= 0, j0 < jb, jb < nr), w(j0) != w(jb))),
+            # a candidate that is not reported sits at a sorted position >= nr: its label is not better than any reported one
+            (pre + '.top', z3.Implies(z3.And(in_r, c1 >= 0, c1 < n1, qq(c1) >= nr), xreal.le(lab(s1(c1)), lab(w(j0))))),
+            (pre + '.every_trial_with_labels_is_a_candidate', z3.Implies(z3.And(i0 >= 0, i0 < zi(n), valid(i0)), QE(n1, lambda k: s1(k) == i0))),
+        ]
+    if len(fs) != 2 or not fs[1]['arr'].eq(ra):
+        raise Unsupported('GetBestTrials(count): the multi-objective selection is not a prefix of two boolean-mask filters of the trial list')
+    f1, f2 = fs
+    s1, s2, n1, n2 = f1['src'], f2['src'], f1['n'], f2['n']
+    w = lambda j: s1(s2(j))
+    if dd is not None:
+        better = lambda j, i: dom(L, j, L, i, d)
+    else:
+        GEf, GTf = row_preds(run, L.fn, L.fn, 0, d)
+        better = lambda j, i: z3.And(GEf(j, i), GTf(j, i))
+    j1 = z3.Int('j!sp')
+    spec = lambda i: z3.And(valid(i), z3.Not(z3.Exists([j1], z3.And(j1 >= 0, j1 < zi(n), valid(j1), better(j1, i)))))
+    obs = [
+        (pre + '.len', nr == z3.If(c < n2, c, n2)),
+        Lm('lemma.result_is_a_prefix', z3.And(nr >= 0, nr <= n2)),
+        Lm('lemma.candidates_are_the_trials_with_labels', QA(n1, lambda k: z3.And(s1(k) >= 0, s1(k) < zi(n), valid(s1(k))))),
+        Lm('lemma.every_trial_with_labels_is_a_candidate', z3.Implies(z3.And(i0 >= 0, i0 < zi(n), valid(i0)), QE(n1, lambda k: s1(k) == i0))),
+        Lm('lemma.result_is_filtered', z3.Implies(in_r, z3.And(s2(j0) >= 0, s2(j0) < n1, ra[j0] == T.arr[w(j0)], f2['cond'](s2(j0))))),
+    ]
+    NP.fact(run, f1['complete_at'](i0))
+    NP.fact(run, f2['complete_at'](c1))
+    K = lambda k: z3.And(k >= 0, k < n1, s1(k) == i0)
+    obs += [
+        (pre + '.infeasible_never_reported', z3.Implies(in_r, valid(w(j0)))),
+        (pre + '.reported_is_pareto_optimal', z3.Implies(in_r, z3.And(w(j0) >= 0, w(j0) < zi(n), ra[j0] == T.arr[w(j0)], spec(w(j0))))),
+        Lm('all_reported_when_short.obtain_candidate', z3.Implies(z3.And(i0 >= 0, i0 < zi(n), valid(i0)), QE(n1, K))),
+        Lm('all_reported_when_short.candidate_is_selected', z3.Implies(z3.And(i0 >= 0, i0 < zi(n), spec(i0), K(c1)), f2['cond'](c1))),
+        (pre + '.all_reported_when_short', z3.Implies(z3.And(c >= n2, i0 >= 0, i0 < zi(n), spec(i0), K(c1)), QE(nr, lambda j: w(j) == i0))),
+        (pre + '.order_no_duplicates', z3.Implies(z3.And(j0 >= 0, j0 < jb, jb < nr), w(j0) < w(jb))),
+    ]
+    return obs
+
+
 def gbt_replay(name, path, model, sz):
     g = path.run.c11
     n, d = conc(g['n']), conc(g['d'])
@@ -1976,6 +2077,15 @@ def gbt_replay(name, path, model, sz):
     return {'mode': 'best_trials', 'obligation': name, 'goals': ['MAXIMIZE'] * d, 'trials': trials}
 
 
+def gbt_replay_count(name, path, model, sz):
+    payload = gbt_replay(name, path, model, sz)
+    if payload is None:
+        return None
+    cv = model.eval(path.run.c11['count'], model_completion=True)
+    payload['count'] = cv.as_long()
+    return payload
+
+
 def check_best_trials(chk, tier):
     gbt_register()
     for single in (True, False):
@@ -1983,6 +2093,11 @@ def check_best_trials(chk, tier):
         tag = '[single-objective]' if single else '[multi-objective]'
         rn = support_rename(pre)
         Fn(chk, tier, GBT, gbt_entry(single), gbt_post, replay_of=gbt_replay, bounded_sizes=[(2, 1), (3, 1)] if single else [(2, 2), (3, 2)], rename=(lambda x, rn=rn, tag=tag: rn(x) + tag), workers=1,
+           expect_paths=2, timeout_ms=8000 if tier == 'quick' else 60000).run()
+    for single in (True, False):
+        tag = '[single-objective]' if single else '[multi-objective]'
+        Fn(chk, tier, GBT, gbt_entry(single, with_count=True), gbt_post_count, replay_of=gbt_replay_count,
+           bounded_sizes=[(2, 1), (3, 1)] if single else [(2, 2), (3, 2)], rename=(lambda x, tag=tag: x + tag), workers=1,
            expect_paths=2, timeout_ms=8000 if tier == 'quick' else 60000).run()
 
 
